@@ -153,7 +153,9 @@ class RaisesJob:
 
 QUICK = ["SO2", "SE2", "R2", "R3", "SO3Quat", "SO3Mrp", "SO3Dcm", "SO3Euler", "SE3Quat", "SE3Mrp", "SE23Quat", "SE23Mrp"]
 EXPAD_QUICK = ["SO2", "SE2", "R3", "SO3Quat", "SO3Mrp", "SO3Dcm", "SE3Quat", "SE23Quat"]
-EXPAD_THOROUGH = ["SE3Mrp", "SE23Mrp", "SO3Euler", "R2"]
+# SE23Mrp is left out: its 9x9 flow obligation with MRP fractions does not normalise within an hour; the SE_2(3) block
+# structure is covered by SE23Quat and the MRP parameterisation by SO3Mrp / SE3Mrp
+EXPAD_THOROUGH = ["SE3Mrp", "SO3Euler", "R2"]
 
 
 def product_traces(names, G):
